@@ -165,7 +165,9 @@ def add_rings(rng, chain, nrings, big_ids=False):
                 items[idx]['rings'].append([rid, e[2], False])
         for kind, e in evs:
             if kind == 'open':
-                used = set(in_use.values()) | {r[0] for r in items[idx]['rings']}
+                # (an id released by a closing on this very node may be taken again at once: 'C1CC11CC1')
+                reopen = rng.random() < 0.5
+                used = set(in_use.values()) | {r[0] for r in items[idx]['rings'] if r[2] or not reopen}
                 pool = [i for i in (range(1, 10) if not big_ids else list(range(1, 10)) + [10, 12, 25, 99, 123]) if i not in used]
                 if not pool:
                     pool = [i for i in range(10, 60) if i not in used]
